@@ -746,7 +746,7 @@ func (fx *FuncExec) evalSpecCall(env *SpecEnv, x *ast.CallExpr) Val {
 			return Val{T: types.Typ[types.Int], Sort: SInt, S: "(gs.len " + v.S + ")"}
 		case v.T != nil:
 			if _, ok := v.T.Underlying().(*types.Map); ok {
-				return Val{T: types.Typ[types.Int], Sort: SInt, S: ite(eq(v.S, "0"), "0", "(map.len "+v.S+")")}
+				return Val{T: types.Typ[types.Int], Sort: SInt, S: fx.mapLen(env.state(), v)}
 			}
 		}
 		fx.specFail(env, "len of sort %s", v.Sort)
